@@ -80,7 +80,7 @@ func c17RunScript(n datamodel.Node, script []c17Op) []string {
 }
 
 const c17Rule = "case = shared reified node (sharded directory with cold cache / warmed by a full iteration; multi-level file) used by 2..8 goroutines started behind a barrier, each running a drawn script of LookupByString(member | non-member), full MapIterator, Length, AsBytes, AsLargeBytes+Seek+Read on an own reader; " +
-	"oracle = (1) the Go race detector (test binary built with -race: any report fails the run), (2) every result equals the same script run alone on a fresh node; non-trivial = >= 2 goroutines whose scripts reach the same child shard (by the hash-path model) of a cold node, or >= 2 goroutines reading a multi-level file; distinct by (node kind, goroutines, op mix, cold/warm)"
+	"oracle = (1) the Go race detector (test binary built with -race: any report fails the run), (2) every result equals the same script run alone on a fresh node; non-trivial = >= 2 goroutines whose scripts reach the same child shard (by the hash-path model) of a cold node, or >= 2 goroutines reading a multi-level file; distinct by (node kind, goroutines, the drawn scripts)"
 
 func TestC17_P_ConcurrentReads(t *testing.T) {
 	ev := newEvid(t, c17Rule)
@@ -210,7 +210,7 @@ func TestC17_P_ConcurrentReads(t *testing.T) {
 			mk = append(mk, k)
 		}
 		sort.Strings(mk)
-		ev.Case(fmt.Sprintf("%s g=%d %v shared=%v", kind, g, mk, sharedShard), nt, "kind:"+kind, fmt.Sprintf("goroutines:%d", g), fmt.Sprintf("shared-child-shard:%v", sharedShard))
+		ev.Case(fmt.Sprintf("%s g=%d %v shared=%v %s", kind, g, mk, sharedShard, fph(fmt.Sprint(scripts))), nt, "kind:"+kind, fmt.Sprintf("goroutines:%d", g), fmt.Sprintf("shared-child-shard:%v", sharedShard))
 		ev.Sample(map[string]any{"node": kind, "goroutines": g, "ops_per_goroutine": len(scripts[0]), "op_mix": mk, "shared_child_shard": sharedShard})
 	})
 }
